@@ -436,6 +436,11 @@ func (d *dsys) Apply(i int) (sig, desc string) {
 		d.s.LockRegion(o.x, o.y, o.w, o.h, o.lock)
 		d.sh.LockRegion(o.x, o.y, o.w, o.h, o.lock)
 	case "winsize":
+		if o.w < d.term.W || o.h < d.term.H {
+			// a silent shrink makes the terminal drop content; if the size is back to what the
+			// screen knows by the next Show, the screen cannot tell: external corruption
+			d.corrupted = true
+		}
 		d.tty.SetSize(o.w, o.h)
 	case "corrupt":
 		d.term.Scramble()
